@@ -67,7 +67,8 @@ type proxyCase struct {
 	Order  []int    `json:"order"`  // permutation seed for the concurrent phase
 	E2E    bool     `json:"e2e"`
 	// HashFirst: the requests that address a pseudo-version by its commit hash (answered with the data of a matching
-	// stored version; not asserted beyond being well-formed HTTP) come before the by-version requests instead of after.
+	// stored version; not asserted beyond being well-formed HTTP) and the HEAD requests come before the by-version GET
+	// requests instead of after.
 	HashFirst bool `json:"hash_first,omitempty"`
 	// Stray names entries of the served directory that are not module versions (a trailing / makes a directory).
 	Stray []string `json:"stray,omitempty"`
@@ -177,7 +178,13 @@ func startServer(dir string) (*goproxytest.Server, error) {
 }
 
 func get(cl *http.Client, url string) (resp, error) {
-	r, err := cl.Get(url)
+	var r *http.Response
+	var err error
+	if u, ok := strings.CutPrefix(url, "HEAD "); ok {
+		r, err = cl.Head(u)
+	} else {
+		r, err = cl.Get(url)
+	}
 	if err != nil {
 		return resp{}, err
 	}
@@ -294,6 +301,15 @@ func checkProxy(c proxyCase) *vt.Fail {
 		hash := m.Version[strings.LastIndex(m.Version, "-")+1:]
 		for _, f := range []string{hash + ".zip", hash + ".info", hash[:7] + ".zip", hash + ".mod"} {
 			hashReqs = append(hashReqs, req{srv.URL + "/" + encP + "/@v/" + f, func(r resp) *vt.Fail { return nil }})
+		}
+	}
+	// HEAD requests for stored versions (answers not asserted; what they may leave behind in the server is what the
+	// strict by-version checks see)
+	for _, m := range c.Mods {
+		encP, _ := module.EscapePath(m.Path)
+		encV, _ := module.EscapeVersion(m.Version)
+		for _, ext := range []string{"info", "zip"} {
+			hashReqs = append(hashReqs, req{"HEAD " + srv.URL + "/" + encP + "/@v/" + encV + "." + ext, func(r resp) *vt.Fail { return nil }})
 		}
 	}
 	if c.HashFirst {
